@@ -22,12 +22,29 @@
                                       than 65535 sample headers (uint16_t index) and the allocator
                                       invariant of C14 for the current wave bank
     * C10_offset_window_counterexample  the D11 witness
+    * C10_pcm_histories_partial       invariant over ALL histories of add_song/queries on a fresh linker:
+                                      every song of the bank was read from one of the added files, and every
+                                      patch entry serves — in the banks as they are now — what the file carried
+                                      for that slot; PCM headers address exactly the sample's bytes inside the
+                                      PCM bank get_pcm_data returns, with the rate's pitch code, under the bank
+                                      rule; data bank duplicate-free; C14's allocator invariant — PARTIAL: extra
+                                      hypotheses `start = 0` in every PCM header read (D11) and at most 65536
+                                      sample headers at the end (the uint16_t that carries add_sample's result)
+    * C10_pcm_later_songs_keep_partial  split histories: nothing a later song adds changes what an earlier
+                                      patch entry resolves to (same two extra hypotheses)
+    * C10_reader_agreement            the linker's chunk walk (readSong = state-free part of add_song) and the
+                                      spec reader agree on every byte string the spec reader accepts: same
+                                      sequence, group and entries; add_song is the fold over exactly these
+    * C10_stored_once                 offsets of non-empty bank entries are equal iff the bytes are equal iff
+                                      it is the same entry; equal PCM headers iff equal address, pitch code, size
   `C10_full_statement` keeps the whole-history statement against the spec resolver; what is
   missing from it is said there.
 -/
 import Ctrmml.Proofs.Linker
 import Ctrmml.Proofs.Wave
 import Ctrmml.Proofs.LinkHist
+import Ctrmml.Proofs.LinkRead
+import Ctrmml.Proofs.LinkStored
 import Ctrmml.Spec.Link
 namespace Ctrmml.Linker
 open Ctrmml
@@ -619,19 +636,109 @@ example : ∃ l, runOps (exOps1 ++ exOps2) (Linker.fresh 64 16) = .ok l ∧
   ⟨exLinked, (C10_pcm_later_songs_keep_partial 64 16 (by omega) (by omega) (by omega) exOps1 exOps2 exLinked1 exLinked
       exRun1 exRun2 exStart0 (by decide +kernel)).1, exStart0, by decide +kernel, by decide +kernel⟩
 
+/-! ### the two readers -/
+
+/-- The linker's reading of a file agrees with the spec's own reader on EVERY byte string the spec
+reader accepts.  `LinkSpec.parseMds` is the strict reader the resolver's expectations come from
+(its own chunk splitter on bytes); `readSong` is the state-free part of `add_song` (`RIFF(bytes)`,
+`rewind`, `get_id`, the `at_end`/`get_chunk` loop over the file with the last-chunk-wins locals, the
+version check, the `at_end`/`get_chunk` loop over the `dblk` list).  If `parseMds f = some s` then:
+(1) `readSong f` succeeds with the same sequence bytes and group bytes, and the entries it lists —
+what each `glob`/`pcmh` child carries, `Carried` — are, in file order, exactly the spec's slots
+(same slot address, flag, data bytes; for PCM the same rate, start offset and addressed bytes);
+(2) for every linker state `l` and file name, `add_song` is exactly the fold of `add_unique_data` /
+`add_sample` over those entries: it fails only if one of the entries fails (bank full, …), and
+when it succeeds the new song has the file's sequence bytes under the keyified group.
+The converse is false by design: the linker also accepts files the strict reader rejects (missing
+`grp `/`pcmd`, repeated or unknown chunks, other `LIST`s); for those `readSong`/`Carried` are the
+definition of what the song carries (C10_pcm_histories_partial). -/
+theorem C10_reader_agreement (f : Bytes) (s : LinkSpec.SongIn) (h : LinkSpec.parseMds f = some s) :
+    ∃ rd mds, readSong f = some rd ∧ Riff.ofBytes f = .ok mds ∧
+      rd.seq = s.seq ∧ rd.group = s.group ∧ rd.carried.map (toSlot rd.pcmd) = s.slots ∧
+      (∀ (l : Linker) (name : Bytes), addSong l mds name =
+        match foldDblk rd.sdata rd.seq.length rd.pcmd rd.chunks none { bank := l.dataBank, wave := l.wave, patch := [] } with
+        | .error e => .error e
+        | .ok a => .ok { dataBank := a.bank, wave := a.wave,
+                         seqBank := seqInsert l.seqBank (groupKey rd.group) { filename := name, data := rd.seq, patch := a.patch } }) := by
+  obtain ⟨rd, h1, h2, h3, h4, _⟩ := readSong_of_parseMds f s h
+  cases ho : Riff.ofBytes f with
+  | error e =>
+    unfold readSong at h1
+    rw [ho] at h1
+    cases h1
+  | ok mds =>
+    exact ⟨rd, mds, h1, rfl, h2, h3, h4, fun l name => addSong_of_read l f mds name rd ho h1⟩
+
+/-- the spec reader accepts both example files (so the hypothesis of the theorem is met), with one and three slots -/
+example : (LinkSpec.parseMds exFileA).isSome = true ∧ ((LinkSpec.parseMds exFileB).map fun s => s.slots.length) = some 3 := by
+  constructor <;> decide +kernel
+
+/-! ### stored once -/
+
+/-- Identical data is stored once and different data is never merged, in the linked bank, for every
+linker state with a duplicate-free data bank (every state a history reaches: C10_pcm_histories_partial)
+whose `get_seq_data` succeeds.  (1) The word the relocation writes into a pointer slot `(addr, v)` is
+`entryOffset` of data-bank entry `v mod 2^15` (bit 15 kept), and the bank shows the entry's bytes there
+(this names the offset that C10_relocation_sound only asserts to exist).  (2) Two non-empty entries
+have the same offset exactly when they are the same bytes, and then they are the same entry.
+(3) For PCM headers "the same bytes" means: the same address, the same pitch code and the same size
+(headers of windows inside a rom of at most 2^24 bytes). -/
+theorem C10_stored_once (l : Linker) (bank : Bytes) (h : getSeqData l = .ok bank) (hnd : l.dataBank.Nodup) :
+    (∀ (i : Nat) (s : SeqData), l.songs[i]? = some s → PatchWf s.data.length s.patch →
+      ∃ o d, rd bank (12 + 4 * i) 4 = be32 o ∧ rd bank (8 + o) s.data.length = d ∧
+        ∀ q ∈ s.patch, ∃ t e, entryOffset l (q.2 % 32768) = some t ∧ l.dataBank[q.2 % 32768]? = some e ∧
+          d[q.1]? = some (byteOf ((t ||| (q.2 / 32768 % 2 * 32768)) / 256)) ∧
+          d[q.1 + 1]? = some (byteOf (t ||| (q.2 / 32768 % 2 * 32768))) ∧ rd bank (8 + t) e.length = e) ∧
+    (∀ (i j : Nat) (ei ej : Bytes) (ti tj : Nat), l.dataBank[i]? = some ei → l.dataBank[j]? = some ej → ei ≠ [] → ej ≠ [] →
+      entryOffset l i = some ti → entryOffset l j = some tj → ((ti = tj ↔ ei = ej) ∧ (ei = ej ↔ i = j))) ∧
+    (∀ (s t : Wave.Sample), s.position + s.start < 16777216 → t.position + t.start < 16777216 →
+      s.size < 4294967296 → t.size < 4294967296 →
+      (pcmHeader s = pcmHeader t ↔
+        (s.position + s.start = t.position + t.start ∧ pitchCode s.rate = pitchCode t.rate ∧ s.size = t.size))) := by
+  refine ⟨?_, fun i j ei ej ti tj hi hj hni hnj h1 h2 => entryOffset_inj l hnd i j ei ej ti tj hi hj hni hnj h1 h2,
+    fun s t hs ht hss hts => pcmHeader_inj s t hs ht hss hts⟩
+  intro i s hs wf
+  have L := getSeqData_laid l bank h
+  obtain ⟨o, d, offs, hoffs, hp, h1, _, _, h4⟩ := laid_song L i s hs
+  obtain ⟨p1, _, p3⟩ := patchSong_spec offs s.patch s.data d wf hp
+  refine ⟨o, d, h1, by rw [← p1]; exact h4, ?_⟩
+  intro q hq
+  obtain ⟨t, ht, b1, b2⟩ := p3 q hq
+  have hlen := (layGen_len l.dataBank (4 + 4 * l.songs.length)).2
+  have hjl : q.2 % 32768 < l.dataBank.length := by
+    rcases Nat.lt_or_ge (q.2 % 32768) l.dataBank.length with h | h
+    · exact h
+    · rw [hoffs, List.getElem?_eq_none (by omega)] at ht; cases ht
+  obtain ⟨t', g1, _, _, _, g5⟩ := laid_entry L (q.2 % 32768) _ (List.getElem?_eq_getElem hjl)
+  rw [hoffs, g1] at ht
+  cases ht
+  exact ⟨_, _, g1, List.getElem?_eq_getElem hjl, b1, b2, g5⟩
+
+example : ∃ l bank, getSeqData l = .ok bank ∧ l.dataBank.Nodup ∧ l.dataBank.length = 2 ∧ entryOffset l 1 = some 12 :=
+  ⟨{ dataBank := [[7, 8, 9], [1]], seqBank := [([66], [{ filename := [97], data := [0, 2, 0, 0, 5], patch := [(2, 1)] }])],
+     wave := Wave.Bank.new 16 4 }, _, rfl, by decide, rfl, by decide⟩
+
 /-- The full statement of C10 over the model, kept for the record: for every list of well-formed
 MDS files (as read by the spec's own reader, PCM start offsets 0) that the linker accepts, the
 spec resolver accepts the linked sequence bank with the linked PCM bank, and the header reader
-accepts both headers.  Proved of it (theorems above): the layout of get_seq_data for every linker
-state (songs found through the table, bytes unchanged outside slots, every slot relocated to its
-bank entry, entries byte-identical in the bank), add_unique_data (stored once / never merged),
-the group-ordered insertion, identifier generation (termination, validity, uniqueness, values),
-query independence, and one PCM re-homing step on top of C14's allocator invariant.  NOT proved:
-(a) that `addSong`'s chunk walk over `Model/Riff` yields exactly the entries `parseMds` reads
-(the two readers are tied by the correspondence check and the judge only); (b) the composition
-of the single-step PCM theorem over whole histories (needs `Wave.Inv` threaded through
-`walkDblk`/`runOps`; C14_content_stable gives the step); (c) `storedOnce` of the resolver for
-PCM headers (equal headers ⇔ equal window and pitch code). -/
+accepts both headers.  Proved of it (theorems above), for all linker states / histories: the layout
+of get_seq_data (songs found through the table, bytes unchanged outside slots, every slot relocated
+to its bank entry at `entryOffset`, entries byte-identical in the bank), add_unique_data (stored
+once / never merged) and its bank-level form (C10_stored_once, incl. PCM headers), the
+group-ordered insertion, identifier generation (termination, validity, uniqueness, values), query
+independence; (a) the tie between `addSong`'s chunk walk and `parseMds` (C10_reader_agreement);
+(b) the PCM/data invariant over whole histories (C10_pcm_histories_partial: every patch entry
+serves what the file carried, PCM region inside `get_pcm_data`, pitch code, bank rule) — under
+`start = 0` (D11, also a hypothesis here) and ≤ 65536 sample headers.
+NOT proved: the last step, that the executable resolver `LinkSpec.resolveBank` / `resolveHeaders`
+returns `.ok ()` given these facts.  It needs (i) `LinkSpec.ordered songs` (insertion sort of the
+group symbols by `lexLe` over `symbolOf`) = the order of `l.songs` (`seqInsert` by `bytesLt` over
+`keyify`); (ii) `songOk`'s `bodySame`/`mapM' slotOk` from C10_seq_bytes_unchanged, C10_stored_once(1)
+and `Serves` (needs `PatchWf` from the spec's `disjointSlots`, and data-bank index < 2^15 from the
+32 KiB limit); (iii) `increasing` spans and the area checks from the layout; (iv) the list-level
+`storedOnce` from C10_stored_once(2); (v) the header text parser (`splitOn`, `natOfDigits ∘ decimal`)
+on `asmHeader`/`cHeader` from C10_identifiers_unique_valid.  The per-case judge runs exactly this
+resolver on the real output. -/
 def C10_full_statement : Prop :=
   ∀ (files : List (Bytes × Bytes)) (songs : List LinkSpec.SongIn) (l : Linker) (bank : Bytes),
     files.map (fun f => LinkSpec.parseMds f.2) = songs.map some →
